@@ -188,6 +188,8 @@ ilu_dpivotL(
 	thresh = u * pivmax;
 
 	/* Choose appropriate pivotal element by our policy. */
+	if ( *usepr && lsub_ptr[old_pivptr] != *pivrow )
+	    *usepr = 0; /* the remembered pivot row is not a candidate any more (dropped) */
 	if ( *usepr ) {
 	    switch (milu) {
 		case SMILU_1:
